@@ -133,7 +133,8 @@ def main():
     weights = [l.get("weight", 1.0) for l in legs]
     for i, leg in enumerate(legs):
         remaining = budget - (time.time() - t_start - t_build)
-        share = max(3.0, remaining * weights[i] / sum(weights[i:]))
+        fair = remaining * weights[i] / sum(weights[i:])
+        share = max(3.0, min(remaining - 2.0 * (len(legs) - i - 1), 5.0 * fair))
         r = run_leg(prop, leg, a.tier, bins[leg["harness"]], share, known, seed)
         results.append(r)
         res = r["res"] or {}
